@@ -30,6 +30,9 @@ type FuncResult struct {
 // afterRequires, when set (counterexample replay), is called once the
 // parameters, ghosts, lets, package invariants and preconditions of a function
 // have been encoded; verifyFunction then stops without encoding the body.
+// checkProp is the property being checked (empty: all obligations).
+var checkProp string
+
 var afterRequires func(e *Enc, fr *Frame, entry *State, mkctx func(*State, []Val, string) *SpecCtx)
 
 func keys(m map[string]bool) []string {
@@ -164,6 +167,11 @@ func verifyFunction(l *Loaded, cs *Contracts, fn *ssa.Function, con *Contract) (
 		o.Name = fmt.Sprintf("%s/ensures#%d", res.Name, k+1)
 		o.Model = model
 		res.Clauses++
+		// clauses are proved in order: a later one may use the earlier ones of
+		// the same run (each is an obligation of this very check)
+		if checkProp == "" || hasProp(o.Props, checkProp) {
+			e.B.assume(implies(returns, g))
+		}
 	}
 	// frame: what is not named by modifies is unchanged
 	if !con.Extern {
@@ -435,7 +443,8 @@ func (e *Enc) lookupLocal(fr *Frame, name string, b *ssa.BasicBlock, idx int, ph
 				if obj == nil || obj.Name() != name {
 					continue
 				}
-				if _, isVar := obj.(*types.Var); !isVar {
+				if vr, isVar := obj.(*types.Var); !isVar || vr.IsField() {
+					// (a DebugRef of x.f names the field object f: not a local)
 					continue
 				}
 				// a variable that lives in a cell (address taken / captured) is
